@@ -45,6 +45,7 @@ def run(ctx):
     control_grid(ctx, cirq, mods, checks, n)
     control_phase_grid(ctx, cirq, mods, checks, n)
     noise_channel_grid(ctx, cirq, mods, checks, n)
+    act_on_history_grid(ctx, cirq, mods, checks, n)
     predicate_stream(ctx, cirq, mods, 300 * n)
     evaluate(ctx, checks)
 
@@ -274,6 +275,51 @@ def noise_channel_grid(ctx, cirq, mods, checks, n):
                        f'superoperator of {name} {params} does not act as the documented Kraus operators',
                        dict(signature=f'noise_channel_grid:superoperator:{name}', channel=name, params=params, description='superoperator')))
         ctx.count('noise_channel_grid', [name, params, 'superoperator'], True)
+
+
+def act_on_history_grid(ctx, cirq, mods, checks, n):
+    """ONE density-matrix simulation state (and one state-vector state for the unitary steps) receives a sequence of operations through
+    act_on; after every step its contents must be the documented Kraus maps applied in order to the initial matrix (nested dm_kraus in
+    Coq).  The sequences are sliding windows over a fixed list that puts every in-place fast path (parameters 0 and 1, reset, diagonal
+    and permutation unitaries) in front of every kind of follower (fixed for every seed)."""
+    rng = ctx.rng
+    R = lambda x: f'(R {gates.fl(x)})'
+    sq = math.sqrt
+    H = np.array([[1, 1], [1, -1]], dtype=complex) / sq(2)
+    lit = lambda *ms: '[' + '; '.join(gates.fmat(np.asarray(m, dtype=complex)) for m in ms) + ']'
+    pool = [('phase_damp(0)', cirq.phase_damp(0.0), f'kraus_phase_damp FOps {R(1.0)} {R(0.0)}'), ('depolarize(0.1)', cirq.depolarize(0.1), f'kraus_depolarize FOps {R(sq(0.9))} {R(sq(0.1 / 3))}'),
+            ('amplitude_damp(0)', cirq.amplitude_damp(0.0), f'kraus_amp_damp FOps {R(1.0)} {R(0.0)}'), ('amplitude_damp(0.3)', cirq.amplitude_damp(0.3), f'kraus_amp_damp FOps {R(sq(0.7))} {R(sq(0.3))}'),
+            ('phase_damp(1)', cirq.phase_damp(1.0), f'kraus_phase_damp FOps {R(0.0)} {R(1.0)}'), ('bit_flip(0.2)', cirq.bit_flip(0.2), f'kraus_bit_flip FOps {R(sq(0.8))} {R(sq(0.2))}'),
+            ('H', cirq.H, lit(H)), ('phase_damp(0)', cirq.phase_damp(0.0), f'kraus_phase_damp FOps {R(1.0)} {R(0.0)}'), ('reset', cirq.ResetChannel(), 'kraus_reset2 FOps'),
+            ('bit_flip(0)', cirq.bit_flip(0.0), f'kraus_bit_flip FOps {R(1.0)} {R(0.0)}'), ('Z', cirq.Z, lit(np.diag([1, -1]))), ('phase_flip(0.3)', cirq.phase_flip(0.3), f'kraus_phase_flip FOps {R(sq(0.7))} {R(sq(0.3))}'),
+            ('amplitude_damp(1)', cirq.amplitude_damp(1.0), f'kraus_amp_damp FOps {R(0.0)} {R(1.0)}'), ('X', cirq.X, lit(np.array([[0, 1], [1, 0]]))),
+            ('generalized_amplitude_damp(0.3, 0.4)', cirq.generalized_amplitude_damp(0.3, 0.4), f'kraus_gen_amp_damp FOps {R(sq(0.3))} {R(sq(0.7))} {R(sq(0.6))} {R(sq(0.4))}'),
+            ('phase_damp(0.25)', cirq.phase_damp(0.25), f'kraus_phase_damp FOps {R(sq(0.75))} {R(0.5)}')]
+    qs = cirq.LineQubit.range(2)
+    L = 4
+    starts = range(len(pool)) if ctx.tier != 'quick' else range(0, len(pool), 1)
+    for st in starts:
+        seq = [pool[(st + j) % len(pool)] for j in range(L)]
+        a = np.array([[complex(rng.gauss(0, 1), rng.gauss(0, 1)) for _ in range(4)] for _ in range(4)])
+        rho = a @ a.conj().T
+        rho = rho / np.trace(rho)
+        state = cirq.DensityMatrixSimulationState(qubits=qs, initial_state=rho.astype(np.complex128), dtype=np.complex128)
+        expr = gates.fvec(rho.reshape(-1))
+        names = []
+        for j, (nm, ch, spec) in enumerate(seq):
+            ax = (st + j) % 2
+            names.append(f'{nm} on q{ax}')
+            try:
+                cirq.act_on(ch.on(qs[ax]), state)
+            except Exception as e:
+                ctx.violation('act_on_history:raises', f'act_on of {names} on one density-matrix state raised {type(e).__name__}: {e}', dict(kind='act_on_history', steps=names))
+                break
+            expr = f'(dm_kraus FOps ({spec}) [2%nat] [{ax}%nat] [2%nat; 2%nat] {expr})'
+            got = np.asarray(state.target_tensor).reshape(-1).copy()
+            ctx.count('act_on_history', [names[:]], True, sample=dict(steps=names[:]))
+            checks.append(('act_on_history', f'fcl_close {TOL} {expr} {gates.fvec(got)}',
+                           f'one DensityMatrixSimulationState after act_on of {names}: not the documented Kraus maps applied in order',
+                           dict(signature=f'act_on_history:{nm}', steps=names[:])))
 
 
 def wrapper_stream(ctx, cirq, mods, checks, n):
